@@ -112,6 +112,11 @@ def check(case, ctx):
         ctx.label("nontrivial")
     status, res = call(rescaling.rescale_tree_sequence, ts, case["mu"], num_intervals=case["num_intervals"],
                        num_iterations=case["num_iterations"], match_segregating_sites=case["segsites"])
+    if status == "rejected" and "use fewer rescaling intervals" in str(res):
+        # more intervals than the mutations can support: since the F2 repair this is a clean, advised
+        # rejection of the (input, num_intervals) combination (it was an AssertionError, discarded below)
+        ctx.discard("rejected:too_few_mutations_for_num_intervals")
+        return []
     if status == "rejected":
         return [Violation("rejected:" + exc_key(res), f"contemporaneous simplified input rejected: {res!r}")]
     if status == "internal":
